@@ -29,6 +29,8 @@ Check(e) ==
          /\ Report(e.known_hosts_ok, <<"BAD", "known-hosts-is-not-base64-of-blob", l>>)
          \* a blob that IS the specified encoding (first clause), received and parsed: same fingerprint
          /\ Report(e.key_bytes # SshEnc(e.kind, e.abs) \/ e.reparsed_ok, <<"BAD", "fingerprint-of-the-parsed-blob-differs", l>>)
+    [] e.ev = "conformant_blob" ->   \* a blob built from a conformant one by exchanging the REQUIRED curve (RFC 5656 10.1): same layout
+         Report(e.out = "ok" /\ e.same, <<"BAD", IF e.out = "ok" THEN "conformant-key-blob-not-recomposed" ELSE "conformant-key-blob-rejected", l>>)
     [] e.ev = "fpfail" ->        \* the key blob (or the blob of the signature key inside a certificate) could not be produced at all
          Report(FALSE, <<"BAD", "key-blob-cannot-be-composed", l>>)
     [] e.ev = "wirefp" ->        \* a key or certificate as received: the fingerprint is the digest of the received blob.
